@@ -174,6 +174,9 @@ func runOracle14(j Job) *Result {
 			}
 		}
 		o.noTaintClasses = i%10 < 7
+		if cfg.ChainID != sim.DefaultConfig(1, nil).ChainID {
+			o.paramUser = cfg.Accounts[2]
+		}
 		nBlocks := 36 + r.Intn(20)
 		o.run(nBlocks)
 		if w.Dead {
